@@ -21,9 +21,10 @@ Does not decide: the rounding arithmetic itself (floats, log2), the per-core mem
 from __future__ import annotations
 
 import ast
+from fractions import Fraction
 from typing import Dict, List, Optional, Sequence, Tuple
 
-from engines import absdom, guards, pyfacts as pf
+from engines import absdom, guards, inline, pyfacts as pf
 from engines.common import AnalysisError, Ctx, short
 from engines.guards import Facts
 
@@ -86,9 +87,17 @@ def _check_selectors(ctx: Ctx, m: pf.Module, facts: Facts) -> Dict[str, pf.FuncD
     selectors: Dict[str, pf.FuncDef] = {}
     conv = m.func('PoolConfig.convert_requests_to_resources')
     conv_params = _params(conv)[1:]
-    for st in cls.body:
-        if not isinstance(st, (ast.FunctionDef, ast.AsyncFunctionDef)):
+    # methods that place a request themselves are never inlined into their callers (the dispatcher is judged by R3's dispatch table)
+    own_selectors = tuple(f.name for f in cls.body if isinstance(f, (ast.FunctionDef, ast.AsyncFunctionDef))
+                          and any(isinstance(c.func, ast.Attribute) and c.func.attr == 'convert_requests_to_resources' for c in pf.calls_in(f)))
+    for st0 in cls.body:
+        if not isinstance(st0, (ast.FunctionDef, ast.AsyncFunctionDef)):
             continue
+        if any(isinstance(x, (ast.Yield, ast.YieldFrom)) for x in pf.walk_shallow(st0)):
+            continue  # a generator helper: judged where it is inlined into the selectors
+        # selectors are analysed with their same-class helpers (incl. simple generators and next(gen, default)) inlined
+        mi, il = inline.inline_methods(m, 'InstanceCollectionConfigs', st0.name, exclude=own_selectors)
+        st = mi.func(f'InstanceCollectionConfigs.{st0.name}')
         loops = _pool_loops(st)
         if not loops:
             continue
@@ -103,24 +112,6 @@ def _check_selectors(ctx: Ctx, m: pf.Module, facts: Facts) -> Dict[str, pf.FuncD
         want = [('cloud', 'cloud'), ('preemptible', 'preemptible'), ('label', 'pool_label')]
         if 'worker_type' in params:
             want.append(('worker_type', 'worker_type'))
-        for c in calls:
-            ctx.need(isinstance(c.func.value, ast.Name), f'{qual}: receiver of convert_requests_to_resources is not a variable')
-            pool = c.func.value.id  # type: ignore[union-attr]
-            loop = [lp for lp in loops if lp.target.id == pool]  # type: ignore[union-attr]
-            ctx.need(len(loop) == 1, f'{qual}: `{pool}` is not the variable of a loop over name_pool_config')
-            starts = [n for n in cfg.nodes if n.kind == 'loop' and n.ast is loop[0]]
-            goals = cfg.node_of(c)
-            ctx.need(starts and goals, f'{qual}: loop / call not found in CFG')
-            for attr, par in want:
-                cons = f'{FI}::{qual}::{pool}.{attr} == {par}'
-                ctx.need(par in params, f'{qual}: no parameter `{par}`')
-                path = guards.unguarded_path(cfg, facts, starts, lambda n: any(n is g for g in goals),
-                                             lambda e, pol: guards.is_eq_fact(e, pol, f'{pool}.{attr}', par))
-                ctx.check(path is None, 'R1', cons,
-                          f'`{pool}.convert_requests_to_resources` is reached without `{pool}.{attr} == {par}` {guards.fmt_path(path)}: a job is placed in a pool '
-                          f'of a different {attr} than it asked for', m.path, c.lineno)
-            # R4: like-named plumbing into convert_requests_to_resources
-            _check_call_names(ctx, m, qual, c, conv_params, st, 'PoolConfig.convert_requests_to_resources')
         # R3a: nothing gives up inside the loop
         for lp in loops:
             early = []
@@ -141,6 +132,26 @@ def _check_selectors(ctx: Ctx, m: pf.Module, facts: Facts) -> Dict[str, pf.FuncD
                     for h in getattr(x, 'handlers', []) or []:
                         scan(h.body, in_inner_loop)
             scan(lp.body, False)
+            # leaving the loop AFTER a pool accepted the request is not giving up: exits lexically inside the true branch of a test of the
+            # value returned by convert_requests_to_resources (`if result:` / `if result is not None:`) are fine
+            res_names = {t.id for a in ast.walk(lp) if isinstance(a, ast.Assign) and isinstance(a.value, ast.Call) and isinstance(a.value.func, ast.Attribute)
+                         and a.value.func.attr == 'convert_requests_to_resources' for t in a.targets if isinstance(t, ast.Name)}
+            par = mi.parents()
+
+            def after_success(x: ast.AST) -> bool:
+                cur = x
+                while cur is not lp and cur in par:
+                    p = par[cur]
+                    if isinstance(p, ast.If) and any(cur is b for b in p.body):
+                        t = p.test
+                        pos = (isinstance(t, ast.Name) and t.id in res_names) or \
+                              (isinstance(t, ast.Compare) and isinstance(t.left, ast.Name) and t.left.id in res_names and len(t.ops) == 1
+                               and isinstance(t.ops[0], ast.IsNot) and isinstance(t.comparators[0], ast.Constant) and t.comparators[0].value is None)
+                        if pos:
+                            return True
+                    cur = p
+                return False
+            early = [x for x in early if not after_success(x)]
             # `break`/`return None` in nested loops over something else are still early exits of the selection
             cons = f'{FI}::{qual}::for {pf.nsrc(lp.target)} in {short(pf.nsrc(lp.iter), 40)}'
             ctx.check(not early, 'R3', cons,
@@ -148,6 +159,24 @@ def _check_selectors(ctx: Ctx, m: pf.Module, facts: Facts) -> Dict[str, pf.FuncD
                       + 'the request is rejected (or the search stopped) although a later matching pool could satisfy it', m.path, lp.lineno)
             if lp.orelse:
                 raise AnalysisError(f'{qual}: for/else on the pool loop is not a recognised shape')
+        for c in calls:
+            ctx.need(isinstance(c.func.value, ast.Name), f'{qual}: receiver of convert_requests_to_resources is not a variable')
+            pool = c.func.value.id  # type: ignore[union-attr]
+            loop = [lp for lp in loops if lp.target.id == pool]  # type: ignore[union-attr]
+            ctx.need(len(loop) == 1, f'{qual}: `{pool}` is not the variable of a loop over name_pool_config')
+            starts = [n for n in cfg.nodes if n.kind == 'loop' and n.ast is loop[0]]
+            goals = cfg.node_of(c)
+            ctx.need(starts and goals, f'{qual}: loop / call not found in CFG')
+            for attr, par in want:
+                cons = f'{FI}::{qual}::{pool}.{attr} == {par}'
+                ctx.need(par in params, f'{qual}: no parameter `{par}`')
+                path = guards.unguarded_path(cfg, facts, starts, lambda n: any(n is g for g in goals),
+                                             lambda e, pol: guards.is_eq_fact(e, pol, f'{pool}.{attr}', par))
+                ctx.check(path is None, 'R1', cons,
+                          f'`{pool}.convert_requests_to_resources` is reached without `{pool}.{attr} == {par}` {guards.fmt_path(path)}: a job is placed in a pool '
+                          f'of a different {attr} than it asked for', m.path, c.lineno)
+            # R4: like-named plumbing into convert_requests_to_resources
+            _check_call_names(ctx, m, qual, c, conv_params, st, 'PoolConfig.convert_requests_to_resources')
     ctx.need(len(selectors) >= 2, f'expected at least two pool-selection methods, found {sorted(selectors)}')
     # job-private: cloud filter
     fn = m.func('InstanceCollectionConfigs.select_job_private')
@@ -516,6 +545,195 @@ def _ge_param(fn: pf.FuncDef, e: ast.AST, p: str, depth: int = 4) -> bool:
     return False
 
 
+def _flat(fn: pf.FuncDef, e: ast.AST) -> ast.AST:
+    """e with the straight-line top-level assignments of fn substituted in program order (handles `x = f(x)` re-assignments, which have no
+    single definition).  Functions with assignments under control flow are returned unchanged (single-definition resolution then applies)."""
+    import copy
+    if any(isinstance(s, (ast.If, ast.For, ast.While, ast.Try, ast.With)) for s in fn.body):
+        return e
+    env: Dict[str, ast.expr] = {}
+
+    class Sub(ast.NodeTransformer):
+        def visit_Name(self, node):
+            return copy.deepcopy(env[node.id]) if isinstance(node.ctx, ast.Load) and node.id in env else node
+    for st in fn.body:
+        if isinstance(st, ast.Assign) and len(st.targets) == 1 and isinstance(st.targets[0], ast.Name):
+            env[st.targets[0].id] = Sub().visit(copy.deepcopy(st.value))
+        elif isinstance(st, ast.AnnAssign) and isinstance(st.target, ast.Name) and st.value is not None:
+            env[st.target.id] = Sub().visit(copy.deepcopy(st.value))
+    return Sub().visit(copy.deepcopy(e))
+
+
+def _mentions(fn: pf.FuncDef, e: ast.AST, p: str, depth: int = 6) -> bool:
+    """e depends on parameter p (through single-definition locals)."""
+    if depth <= 0:
+        return False
+    for n in ast.walk(e):
+        if isinstance(n, ast.Name):
+            if n.id == p:
+                return True
+            d = pf.single_def(fn, n.id)
+            if isinstance(d, ast.expr) and _mentions(fn, d, p, depth - 1):
+                return True
+    return False
+
+
+def _ceil_div(e: ast.AST) -> Optional[Tuple[ast.AST, ast.AST]]:
+    """(a, b) if e is an integer round-up division of a by b:  (a + b - 1) // b,  (a + (b - 1)) // b,  (a - 1) // b + 1,  -(-a // b)."""
+    if isinstance(e, ast.UnaryOp) and isinstance(e.op, ast.USub) and isinstance(e.operand, ast.BinOp) and isinstance(e.operand.op, ast.FloorDiv):
+        l = e.operand.left
+        if isinstance(l, ast.UnaryOp) and isinstance(l.op, ast.USub):
+            return l.operand, e.operand.right
+    if isinstance(e, ast.BinOp) and isinstance(e.op, ast.FloorDiv):
+        b = pf.nsrc(e.right)
+        l = e.left
+        if isinstance(l, ast.BinOp) and isinstance(l.op, ast.Sub) and isinstance(l.right, ast.Constant) and l.right.value == 1 and isinstance(l.left, ast.BinOp) \
+                and isinstance(l.left.op, ast.Add) and pf.nsrc(l.left.right) == b:
+            return l.left.left, e.right
+        if isinstance(l, ast.BinOp) and isinstance(l.op, ast.Add) and isinstance(l.right, ast.BinOp) and isinstance(l.right.op, ast.Sub) \
+                and pf.nsrc(l.right.left) == b and isinstance(l.right.right, ast.Constant) and l.right.right.value == 1:
+            return l.left, e.right
+    if isinstance(e, ast.BinOp) and isinstance(e.op, ast.Add) and isinstance(e.right, ast.Constant) and e.right.value == 1 and isinstance(e.left, ast.BinOp) \
+            and isinstance(e.left.op, ast.FloorDiv) and isinstance(e.left.left, ast.BinOp) and isinstance(e.left.left.op, ast.Sub) \
+            and isinstance(e.left.left.right, ast.Constant) and e.left.left.right.value == 1:
+        return e.left.left.left, e.left.right
+    return None
+
+
+def _direction(fn: pf.FuncDef, e: ast.AST, p: str, depth: int = 8) -> str:
+    """How e relates to the real-valued expression it approximates, as far as parameter p (>= 0) flows into it:
+    'exact', 'up' (>=), 'down' (<=), 'mixed'.  Sub-expressions that do not depend on p are exact constants (assumed positive).
+    Unknown operations on a p-dependent value raise AnalysisError (the rule declines)."""
+    if depth <= 0:
+        raise AnalysisError(f'direction analysis too deep at `{pf.nsrc(e)}`')
+    if not _mentions(fn, e, p):
+        return 'exact'
+    if isinstance(e, ast.Name):
+        if e.id == p:
+            return 'exact'
+        d = pf.single_def(fn, e.id)
+        if not isinstance(d, ast.expr):
+            raise AnalysisError(f'`{e.id}` has no single definition')
+        return _direction(fn, d, p, depth - 1)
+
+    def comb(a: str, b: str) -> str:
+        if a == 'exact':
+            return b
+        if b == 'exact' or a == b:
+            return a
+        return 'mixed'
+
+    def flip(a: str) -> str:
+        return {'up': 'down', 'down': 'up'}.get(a, a)
+    cd = _ceil_div(e)
+    if cd is not None:
+        a, b = cd
+        if _mentions(fn, b, p):
+            raise AnalysisError(f'divisor `{pf.nsrc(b)}` depends on {p}')
+        return comb(_direction(fn, a, p, depth - 1), 'up')
+    if isinstance(e, ast.Call):
+        f = pf.dotted(e.func) or ''
+        if f in ('math.ceil', 'ceil') and len(e.args) == 1:
+            return comb(_direction(fn, e.args[0], p, depth - 1), 'up')
+        if f in ('math.floor', 'floor', 'int', 'math.trunc') and len(e.args) == 1:
+            return comb(_direction(fn, e.args[0], p, depth - 1), 'down')
+        if f == 'round':
+            return 'mixed'
+        if f == 'max':
+            ds = [_direction(fn, a, p, depth - 1) for a in e.args if _mentions(fn, a, p)]
+            return 'up' if any(x in ('up', 'exact') for x in ds) and not all(x == 'exact' for x in ds) else (ds[0] if len(set(ds)) == 1 else 'mixed')
+        if f == 'min':
+            ds = {_direction(fn, a, p, depth - 1) for a in e.args if _mentions(fn, a, p)}
+            return ds.pop() if len(ds) == 1 and len(e.args) == 1 else 'mixed'
+        if f == 'float' and len(e.args) == 1:
+            return _direction(fn, e.args[0], p, depth - 1)
+        if f.split('.')[-1] == 'round_up_division' and len(e.args) == 2 and not _mentions(fn, e.args[1], p):
+            return comb(_direction(fn, e.args[0], p, depth - 1), 'up')  # hailtop.utils.round_up_division(x, y) = (x + y - 1) // y
+        raise AnalysisError(f'unrecognised call `{pf.nsrc(e)}` on a value derived from {p}')
+    if isinstance(e, ast.BinOp):
+        lm, rm = _mentions(fn, e.left, p), _mentions(fn, e.right, p)
+        if isinstance(e.op, (ast.Add, ast.Mult)):
+            return comb(_direction(fn, e.left, p, depth - 1), _direction(fn, e.right, p, depth - 1))
+        if isinstance(e.op, ast.Sub):
+            return comb(_direction(fn, e.left, p, depth - 1), flip(_direction(fn, e.right, p, depth - 1)))
+        if isinstance(e.op, ast.Div):
+            return comb(_direction(fn, e.left, p, depth - 1), flip(_direction(fn, e.right, p, depth - 1)))
+        if isinstance(e.op, ast.FloorDiv):
+            if rm:
+                raise AnalysisError(f'divisor `{pf.nsrc(e.right)}` depends on {p}')
+            return comb(_direction(fn, e.left, p, depth - 1), 'down')
+        if isinstance(e.op, (ast.LShift, ast.RShift)) and not rm:
+            return comb(_direction(fn, e.left, p, depth - 1), 'down' if isinstance(e.op, ast.RShift) else 'exact')
+        raise AnalysisError(f'unrecognised operator in `{pf.nsrc(e)}`')
+    if isinstance(e, ast.UnaryOp) and isinstance(e.op, ast.UAdd):
+        return _direction(fn, e.operand, p, depth - 1)
+    raise AnalysisError(f'unrecognised expression `{pf.nsrc(e)}` on a value derived from {p}')
+
+
+def _scale(fn: pf.FuncDef, e: ast.AST, p: str, depth: int = 8) -> Optional[Fraction]:
+    """The constant c such that e approximates c * p (roundings ignored); None if e is not such a scaling."""
+    if depth <= 0:
+        return None
+    if isinstance(e, ast.Name):
+        if e.id == p:
+            return Fraction(1)
+        d = pf.single_def(fn, e.id)
+        return _scale(fn, d, p, depth - 1) if isinstance(d, ast.expr) else None
+
+    def const(x: ast.AST) -> Optional[Fraction]:
+        try:
+            iv = absdom.eval_interval(x, {})
+            return Fraction(iv.lo) if iv.lo == iv.hi else None
+        except Exception:
+            return None
+    cd = _ceil_div(e)
+    if cd is not None:
+        a, b = _scale(fn, cd[0], p, depth - 1), const(cd[1])
+        return a / b if a is not None and b else None
+    if isinstance(e, ast.Call):
+        f = pf.dotted(e.func) or ''
+        if f in ('math.ceil', 'ceil', 'math.floor', 'floor', 'int', 'round', 'float', 'math.trunc') and len(e.args) >= 1:
+            return _scale(fn, e.args[0], p, depth - 1)
+        if f.split('.')[-1] == 'round_up_division' and len(e.args) == 2:
+            a, b = _scale(fn, e.args[0], p, depth - 1), const(e.args[1])
+            return a / b if a is not None and b else None
+        return None
+    if isinstance(e, ast.BinOp):
+        if isinstance(e.op, ast.Mult):
+            for x, y in ((e.left, e.right), (e.right, e.left)):
+                k = const(y)
+                if k is not None:
+                    a = _scale(fn, x, p, depth - 1)
+                    return a * k if a is not None else None
+            return None
+        if isinstance(e.op, (ast.Div, ast.FloorDiv)):
+            a, k = _scale(fn, e.left, p, depth - 1), const(e.right)
+            return a / k if a is not None and k else None
+    return None
+
+
+def _numer(fn: pf.FuncDef, e: ast.AST, p: str, depth: int = 8) -> bool:
+    """p occurs in a numerator position of e (e grows with p)."""
+    if depth <= 0:
+        return False
+    if isinstance(e, ast.Name):
+        if e.id == p:
+            return True
+        d = pf.single_def(fn, e.id)
+        return isinstance(d, ast.expr) and _numer(fn, d, p, depth - 1)
+    cd = _ceil_div(e)
+    if cd is not None:
+        return _numer(fn, cd[0], p, depth - 1)
+    if isinstance(e, ast.Call) and e.args:
+        return any(_numer(fn, a, p, depth - 1) for a in e.args)
+    if isinstance(e, ast.BinOp):
+        if isinstance(e.op, (ast.Mult, ast.Add)):
+            return _numer(fn, e.left, p, depth - 1) or _numer(fn, e.right, p, depth - 1)
+        if isinstance(e.op, (ast.Div, ast.FloorDiv, ast.Sub, ast.RShift, ast.LShift)):
+            return _numer(fn, e.left, p, depth - 1)
+    return False
+
+
 def _check_shapes(ctx: Ctx) -> None:
     for rel, cloud in ((FG, 'gcp'), (FA, 'azure')):
         m = pf.load(rel)
@@ -529,31 +747,22 @@ def _check_shapes(ctx: Ctx) -> None:
         cons = f'{rel}::{name}'
         ctx.check(_ge_param(fn, rets[0].value, ps[0]), 'R5', cons + '::>= requested cores',
                   f'`{short(pf.nsrc(rets[0]), 70)}` is not of the form max({ps[0]}, …): fewer cores than requested can be granted (e.g. cpu=8, memory=1Gi)', m.path, rets[0].lineno)
-        # the memory-driven minimum rounds up and divides the request by the per-core memory
-        v = pf.resolve_expr(fn, rets[0].value)
-        others = [a for a in (v.args if isinstance(v, ast.Call) else []) if not (isinstance(a, ast.Name) and a.id == ps[0])]
-        mem_terms = [pf.resolve_expr(fn, a) for a in others]
-        ok_ceil = any(isinstance(t, ast.Call) and pf.dotted(t.func) in ('math.ceil', 'ceil') and ps[1] in pf.names_in(t) for t in mem_terms)
-        if isinstance(v, ast.Call) and pf.dotted(v.func) == 'max':
-            weak = [pf.nsrc(t) for t in mem_terms if ps[1] in pf.names_in(t) or any(ps[1] in pf.names_in(pf.resolve_expr(fn, x)) for x in ast.walk(t) if isinstance(x, ast.Name))]
-            ctx.need(ok_ceil or weak, f'{name}: no memory-driven term in `{pf.nsrc(v)}`')
-            ctx.check(ok_ceil, 'R5', cons + '::memory minimum rounds up',
-                      f'the memory-driven core minimum `{short(weak[0], 80) if weak else "?"}` is not rounded up with math.ceil: the granted cores x memory-per-core can fall below the requested memory',
-                      m.path, rets[0].lineno)
-            if ok_ceil:
-                t = [t for t in mem_terms if isinstance(t, ast.Call) and pf.dotted(t.func) in ('math.ceil', 'ceil')][0]
-                inner = t.args[0]
-                # (memory / per_core) * 1000 : memory in a numerator position
-                def numer(e: ast.AST) -> bool:
-                    if isinstance(e, ast.Name):
-                        return e.id == ps[1]
-                    if isinstance(e, ast.BinOp) and isinstance(e.op, ast.Mult):
-                        return numer(e.left) or numer(e.right)
-                    if isinstance(e, ast.BinOp) and isinstance(e.op, (ast.Div, ast.FloorDiv)):
-                        return numer(e.left)
-                    return False
-                ctx.check(numer(inner), 'R5', cons + '::memory / per-core', f'`{short(pf.nsrc(inner), 80)}` does not grow with {ps[1]}: more memory does not raise the core count',
-                          m.path, t.lineno)
+        # the memory-driven minimum is never below the real quotient request / per-core memory: decided by a direction analysis of the
+        # arithmetic (exact | up = rounded up | down = rounded down | mixed), not by the spelling of the rounding
+        v = _flat(fn, rets[0].value)
+        if not isinstance(v, ast.Call):
+            v = pf.resolve_expr(fn, rets[0].value)
+        ctx.need(isinstance(v, ast.Call) and pf.dotted(v.func) == 'max', f'{name}: return is not max(...)')
+        others = [a for a in v.args if not (isinstance(a, ast.Name) and a.id == ps[0])]
+        mem_terms = [a for a in others if _mentions(fn, a, ps[1])]
+        ctx.need(len(mem_terms) == 1, f'{name}: expected one memory-driven term in `{pf.nsrc(v)}`, found {len(mem_terms)}')
+        t = mem_terms[0]
+        d = _direction(fn, t, ps[1])
+        shown = short(pf.nsrc(pf.expand_locals(fn, t)), 110)
+        ctx.check(d in ('exact', 'up'), 'R5', cons + '::memory minimum rounds up',
+                  f'the memory-driven core minimum `{shown}` is {"rounded DOWN" if d == "down" else "rounded in both directions"} on the way from {ps[1]}: the granted cores x '
+                  f'memory-per-core can fall below the requested memory (e.g. a request just above a whole multiple of the unit that is floored)', m.path, rets[0].lineno)
+        ctx.check(_numer(fn, t, ps[1]), 'R5', cons + '::memory / per-core', f'`{shown}` does not grow with {ps[1]}: more memory does not raise the core count', m.path, rets[0].lineno)
         # storage
         name = f'{cloud}_requested_to_actual_storage_bytes'
         fn = m.func(name)
@@ -574,43 +783,16 @@ def _check_shapes(ctx: Ctx) -> None:
     ps = _params(fn)
     rets = [n for n in pf.walk_shallow(fn) if isinstance(n, ast.Return)]
     ctx.need(len(rets) == 1 and rets[0].value is not None and len(ps) == 1, 'round_storage_bytes_to_gib: shape')
-    # follow the straight-line chain backwards
-    chain_ok = False
-    saw_ceil = False
-    cur: ast.AST = rets[0].value
-    body = [s for s in fn.body if isinstance(s, ast.Assign)]
-    env: Dict[str, ast.expr] = {}
-    for s in body:
-        if len(s.targets) == 1 and isinstance(s.targets[0], ast.Name):
-            class Sub(ast.NodeTransformer):
-                def visit_Name(self, node):
-                    return env.get(node.id, node) if isinstance(node.ctx, ast.Load) else node
-            import copy
-            env[s.targets[0].id] = Sub().visit(copy.deepcopy(s.value))
-    if isinstance(cur, ast.Name) and cur.id in env:
-        cur = env[cur.id]
-    e = cur
-    if isinstance(e, ast.Call) and pf.dotted(e.func) in ('math.ceil', 'ceil') and len(e.args) == 1:
-        saw_ceil = True
-        e = e.args[0]
-    elif isinstance(e, ast.Call) and pf.dotted(e.func) == 'round_up_division' and len(e.args) == 2:
-        saw_ceil = True
-        e = ast.BinOp(left=e.args[0], op=ast.Div(), right=e.args[1])
-    div = 1
-    while isinstance(e, ast.BinOp) and isinstance(e.op, ast.Div):
-        try:
-            div *= int(absdom.eval_interval(e.right, {}).lo)
-        except AnalysisError:
-            div = 0
-            break
-        e = e.left
-    chain_ok = isinstance(e, ast.Name) and e.id == ps[0] and div == 1024**3
     cons = f'{FU}::round_storage_bytes_to_gib'
-    ctx.need(isinstance(cur, ast.Call), f'round_storage_bytes_to_gib: result `{short(pf.nsrc(cur), 60)}` is not a rounding call')
-    ctx.check(saw_ceil, 'R5', cons + '::rounds up', f'bytes are converted to GiB by `{short(pf.nsrc(cur), 70)}`, which does not round up: a request of 10.5Gi is granted 10 GiB',
+    rv0 = _flat(fn, rets[0].value)
+    d = _direction(fn, rv0, ps[0])
+    shown = short(pf.nsrc(rv0), 90)
+    ctx.check(d in ('exact', 'up'), 'R5', cons + '::rounds up', f'bytes are converted to GiB by `{shown}`, which is {"rounded down" if d == "down" else "rounded in both directions"}: '
+              'a request of 10.5Gi is granted 10 GiB', m.path, rets[0].lineno)
+    sc = _scale(fn, rv0, ps[0])
+    ctx.need(sc is not None, f'round_storage_bytes_to_gib: `{shown}` is not a scaling of {ps[0]} by a constant')
+    ctx.check(sc == Fraction(1, 1024 ** 3), 'R5', cons + '::divides by 2**30', f'`{shown}` scales {ps[0]} by {sc}, not by 1/1024**3: the GiB granted do not cover the bytes requested',
               m.path, rets[0].lineno)
-    if saw_ceil:
-        ctx.check(chain_ok, 'R5', cons + '::divides by 2**30', f'`{short(pf.nsrc(cur), 70)}` is not ceil({ps[0]} / 1024**3): the GiB granted do not cover the bytes requested', m.path, rets[0].lineno)
     # dispatcher uses the rounded actual bytes of the request
     fn = m.func('requested_storage_bytes_to_actual_storage_gib')
     ps = _params(fn)
